@@ -46,11 +46,15 @@ pub mod tokio {
         impl File {
             pub uninterp spec fn contents(&self) -> Seq<u8>;
             pub uninterp spec fn pos(&self) -> nat;
+            /// "an I/O operation on this handle can fail": a read or seek that answers Err says so; uninterpreted, never changed by
+            /// an operation (a handle either is on a faulty device or it is not) — lets a contract say what happens when nothing fails
+            pub uninterp spec fn io_faulty(&self) -> bool;
 
             /// any chunking: returns 1..=buf.len() bytes unless at EOF (or buf empty)
             #[verifier::external_body]
             pub async fn read(&mut self, buf: &mut [u8]) -> (r: Result<usize, IoError>)
                 ensures final(self).contents() == old(self).contents(), final(buf)@.len() == old(buf)@.len(),
+                    final(self).io_faulty() == old(self).io_faulty(), r is Err ==> old(self).io_faulty(),
                     r is Err ==> final(self).pos() == old(self).pos() && final(buf)@ == old(buf)@,
                     r is Ok ==> ({ let n = r.unwrap() as int;
                         &&& 0 <= n <= old(buf)@.len()
@@ -79,6 +83,7 @@ pub mod tokio {
             #[verifier::external_body]
             pub async fn seek(&mut self, to: SeekFrom) -> (r: Result<u64, IoError>)
                 ensures final(self).contents() == old(self).contents(),
+                    final(self).io_faulty() == old(self).io_faulty(), r is Err ==> old(self).io_faulty(),
                     r is Err ==> final(self).pos() == old(self).pos(),
                     r is Ok ==> (match to { SeekFrom::Start(p) => final(self).pos() == p && r.unwrap() == p, _ => true }),
             { unimplemented!() }
